@@ -449,6 +449,39 @@ def pad_rows(pad, rows, pos=0):
     return rows
 
 
+def synthetic9(ctx, case):
+    """susceptibility_from_coefficients on a (poles,3)+(poles,9) stack with per-axis recurrence coefficients AND a full
+    coupling tensor (documented row rule: entry 3i+j uses the oscillator of row i) vs the model's chi9"""
+    from .common import f2h, h2fs
+    D = M()["D"]
+    dt = case["dt"]
+    pole = make_pole("lor", [tuple(p) for p in case["pars"]])
+    c1, c2, _, _ = D.compute_pole_coefficients_per_axis((pole,), dt)
+    c3 = np.asarray(case["c3"], dtype=np.float64)[None]
+    c4 = np.zeros_like(c3)
+    lines = ["chi9 " + f2h(w) + " " + f2h(dt) + " " + " ".join(f2h(float(x)) for part in (c1[0], c2[0], c3[0], c4[0]) for x in part)
+             for w in case["freqs"]]
+    reps = yield lines
+    for w, rep in zip(case["freqs"], reps):
+        impl = chi_impl(c1, c2, c3, c4, w, dt)
+        v = h2fs(rep)
+        mod = np.array([complex(v[2 * i], v[2 * i + 1]) for i in range(9)])
+        if not np.max(np.abs(impl - mod)) <= 1e-9 * max(float(np.max(np.abs(mod))), 1e-300):
+            ctx.mismatch("chi9-row-rule", case, {"omega": w, "impl": impl.tolist(), "model": mod.tolist()})
+        # oracle: entry (i, j) is c3_ij * D_i / (w0_i^2 dt^2 - th^2 - i g_i dt th) with row i's oscillator
+        th = w * dt
+        for e in range(9):
+            p = case["pars"][e // 3]
+            g, w0 = p[1] * dt, p[0] * dt
+            ana = c3[0, e] * (1 + g / 2) / (w0 * w0 - th * th - 1j * g * th)
+            ctx.impl_property_evals += 1
+            if abs(w0 * w0 - th * th - 1j * g * th) >= 1e-4 and not abs(impl[e] - ana) <= 1e-9 * max(abs(ana), 1e-300):
+                return (f"susceptibility_from_coefficients entry {e} = {complex(impl[e])!r}, but the oscillator of row {e // 3} "
+                        f"gives {ana!r} (9-component coupling with per-axis recurrence coefficients)")
+    ctx.case(nontrivial=("synthetic9", case["dt"]), kind="lor", variant="synthetic-9-stack")
+    return None
+
+
 # ------------------------------------------------------------------------------- convergence clause
 def convergence_fail(kind, par, omega, dt0, levels=4):
     """relative error of the recurrence's own frequency response vs the declared model: O((omega dt)^2).
@@ -558,6 +591,17 @@ def run(ctx):
         for case, d in zip(chunk, lockstep(ctx, [check_case(ctx, c) for c in chunk])):
             if d:
                 ctx.violation(case, d)
+    # full coupling tensors with per-axis recurrence coefficients (row rule of the 9-component expansion)
+    syn = []
+    for i in range(ctx.scale(12, 60)):
+        dt = 10.0 ** ctx.rng.uniform(-18, -13)
+        pars = [list(gen_axis(ctx.rng, "lor", dt, gdt=ctx.rng.uniform(0.0, 1.0))) for _ in range(3)]
+        fr = [w for w in pick_freqs(ctx.rng, "lor", tuple(pars[0]), dt, 12)
+              if all(denom_of("lor", tuple(p), w)[0] * dt * dt >= 1e-4 for p in pars)][:3]
+        syn.append({"syn9": True, "dt": dt, "pars": pars, "c3": [ctx.rng.uniform(-1, 1) * 1e-2 for _ in range(9)], "freqs": fr})
+    for case, d in zip(syn, lockstep(ctx, [synthetic9(ctx, c) for c in syn])):
+        if d:
+            ctx.violation(case, d)
     # convergence clause (Lorentz / Drude): ratio test over halving dt + the proved explicit bound
     for i in range(ctx.scale(40, 300)):
         kind = ["lor", "dru"][i % 2]
@@ -581,6 +625,10 @@ def run(ctx):
 def replay(ctx, inp):
     if inp.get("conv"):
         return convergence_fail(inp["kind"], tuple(inp["par"]), inp["omega"], inp["dt"])
+    if inp.get("syn9"):
+        sub9 = type(ctx)(ctx.pid, ctx.tier, ctx.seed)
+        sub9.driver = ctx.driver
+        return lockstep(sub9, [synthetic9(sub9, inp)])[0]
     sub = type(ctx)(ctx.pid, ctx.tier, ctx.seed)      # scratch context: K mismatches of the replay are not the verdict
     sub.driver = ctx.driver
     try:
@@ -591,7 +639,7 @@ def replay(ctx, inp):
 
 def search(ctx, hints):
     for h in hints:
-        if isinstance(h, dict) and ("kind" in h):
+        if isinstance(h, dict) and ("kind" in h or "syn9" in h):
             d = replay(ctx, h)
             if d:
                 ctx.violation(h, d)
